@@ -25,7 +25,7 @@ CHECKS.update({
          "Trusted: the reference convolution in harness/refmodel. Filters larger than the image and zero strides are outside the domain.",
          "DESIGN.md section 5, C06"),
  "C07": ("exhaustive small-scope enumeration + proptest sampling against reference definitions, plus validity predicates for softmax",
-         "Bounded generated-input search: all shapes of rank 1..4 / sizes 1..3 with every k, every reshape target (and refused targets) and every point-wise function; larger shapes and random values sampled. Since round 10 also sequences of two or three calls that reuse ONE array, its clones or reshaped views of its buffer (stale per-object / per-buffer / per-thread memo tables), each result judged against the reference.",
+         "Bounded generated-input search: all shapes of rank 1..4 / sizes 1..3 with every k, every reshape target (and refused targets) and every point-wise function; larger shapes and random values sampled. Since round 10 also sequences of two or three calls that reuse ONE array, its clones or reshaped views of its buffer (stale per-object / per-buffer / per-thread memo tables), each result judged against the reference. Single-rounding operations (negation, scaling, reciprocal, relu) are compared bitwise in the double-precision build.",
          "Trusted: reference definitions in harness/refmodel (same std float functions evaluated in f64).",
          "DESIGN.md section 5, C07"),
 })
